@@ -94,6 +94,18 @@ package jsonschema
 //@   ensures[C11] str: plainJ(x) && plainJ(y) && isJStr(jv(x)) && isJStr(jv(y)) ==> result == (js(jv(x)) == js(jv(y)))
 //@   ensures[C11] null: plainJ(x) && plainJ(y) && (jv(x) == JNull || jv(y) == JNull) ==> result == (jv(x) == jv(y))
 //@   ensures[C12] fn: result == eqv(x, y)
+//@   ensures[C11] arrsound: plainJ(x) && plainJ(y) && kind(x) == 17 && kind(y) == 17 && result ==> rvlen(x) == rvlen(y) && (forall i int {rvindex(x, i)} :: 0 <= i && i < rvlen(x) ==> eqv(rvindex(x, i), rvindex(y, i)))
+//@   ensures[C11] arrcomplete: plainJ(x) && plainJ(y) && kind(x) == 17 && kind(y) == 17 && !result ==> rvlen(x) != rvlen(y) || (exists i int :: 0 <= i && i < rvlen(x) && !eqv(rvindex(x, i), rvindex(y, i)))
+//@   ensures[C11] slcsound: plainJ(x) && plainJ(y) && kind(x) == 23 && kind(y) == 23 && rvptr(x) != rvptr(y) && !(tkind(telem(rtype(x))) == 8 && rtype(x) == rtype(y)) && result ==> rvlen(x) == rvlen(y) && (forall i int {rvindex(x, i)} :: 0 <= i && i < rvlen(x) ==> eqv(rvindex(x, i), rvindex(y, i)))
+//@   ensures[C11] slccomplete: plainJ(x) && plainJ(y) && kind(x) == 23 && kind(y) == 23 && !rvisnil(x) && !rvisnil(y) && !(tkind(telem(rtype(x))) == 8 && rtype(x) == rtype(y)) && !result ==> rvlen(x) != rvlen(y) || (exists i int :: 0 <= i && i < rvlen(x) && !eqv(rvindex(x, i), rvindex(y, i)))
+//@   ensures[C11] objsound: plainJ(x) && plainJ(y) && kind(x) == 21 && kind(y) == 21 && rvptr(x) != rvptr(y) && result ==> rvlen(x) == rvlen(y) && (forall k string {rvhas(x, k)} :: rvhas(x, k) ==> rvhas(y, k) && eqv(rvget(x, k), rvget(y, k)))
+//@   ensures[C11] objcomplete: plainJ(x) && plainJ(y) && kind(x) == 21 && kind(y) == 21 && !result ==> rvlen(x) != rvlen(y) || (exists k string :: rvhas(x, k) && (!rvhas(y, k) || !eqv(rvget(x, k), rvget(y, k))))
+//@   loop "range x.Len()"
+//@     invariant[C11] pre1: forall j int {rvindex(x, j)} :: 0 <= j && j < $i ==> eqv(rvindex(x, j), rvindex(y, j))
+//@   loop "range x.Len()#2"
+//@     invariant[C11] pre2: forall j int {rvindex(x, j)} :: 0 <= j && j < $i ==> eqv(rvindex(x, j), rvindex(y, j))
+//@   loop "for iter.Next()"
+//@     invariant[C11] seen: iter != nil && mimap(iter) == x && (forall k string {select(MIvisited[iter], k)} :: select(MIvisited[iter], k) ==> rvhas(y, k) && eqv(rvget(x, k), rvget(y, k)))
 //@   ensures[C11] mixed: plainJ(x) && plainJ(y) && typeName(jv(x)) != typeName(jv(y)) && !(isJNum(jv(x)) && isJNum(jv(y))) ==> !result
 
 //@ contract jsonNumber(v)
